@@ -54,7 +54,8 @@ func runtimeStateStores(fn *ssa.Function) []*ssa.Store {
 		for _, ins := range b.Instrs {
 			if st, ok := ins.(*ssa.Store); ok {
 				if fa, ok := st.Addr.(*ssa.FieldAddr); ok {
-					if tn, f, _ := fieldAddrName(fa); tn == "runtimeState" && f != "mu" {
+					if tn, f, _ := fieldAddrName(fa); tn == "runtimeState" && namedPkgPath(fieldOwnerDeref(fa).Underlying().(*types.Struct).Field(fa.Field).Type()) != "sync" {
+						_ = f
 						out = append(out, st)
 					}
 				}
@@ -401,7 +402,7 @@ func checkC09(c *Ctx) {
 
 	// ---- R3 ----
 	recvT := namedName(nfn.Signature.Recv().Type())
-	lm := p.lockAnalysis("ingress", recvT, "mu")
+	lm := p.lockAnalysis("ingress", recvT, p.mutexField("ingress", recvT))
 	nAcc, bad := 0, false
 	for _, a := range lm.Accesses {
 		if a.Fn != nfn {
